@@ -249,6 +249,52 @@ func enduranceOracle(in enduranceIn) probe.Outcome {
 				return probe.Fail("EAP decode number %d yields other attribute values than the first one did", i)
 			}
 		}
+	case "mac-after-many-decodes":
+		// a packet is decoded; before its AT_MAC is verified (the authentication vector has to be fetched first) the process
+		// decodes tens of thousands of other packets - several megabytes. The code of the first one is still that of the octets
+		// as received (its attributes came in an order of the sender's own).
+		key := bytes.Repeat([]byte{0x42}, 32)
+		mk := func(id byte) ([]byte, []byte) {
+			w := c18ReceivedChallenge(id)
+			mac, _ := refMAC(key, w)
+			off, _, _ := ref.AkaAttrSpan(w, model.AT_MAC)
+			copy(w[off:], mac)
+			return w, mac
+		}
+		wA, macA := mk(0xa1)
+		first := new(eap.EAP)
+		if err := first.Unmarshal(probe.Exact(wA)); err != nil {
+			return probe.Fail("HARNESS: %v", err)
+		}
+		var keep []*eap.EAP
+		for i := 1; i <= in.N; i++ {
+			w, mac := mk(byte(i))
+			p := new(eap.EAP)
+			if err := p.Unmarshal(probe.Exact(w)); err != nil {
+				return probe.Fail("EAP decode number %d in this process: %v", i, err)
+			}
+			if i%64 == 0 {
+				keep = append(keep, p) // some sessions stay open
+			}
+			if i%1000 == 0 {
+				got, err := p.CalcEapAkaPrimeAtMAC(key)
+				if err != nil || !bytes.Equal(got, mac) {
+					return probe.Fail("packet number %d: the receiver computes AT_MAC %x, the genuine packet carries %x (%v)", i, got, mac, err)
+				}
+			}
+		}
+		got, err := first.CalcEapAkaPrimeAtMAC(key)
+		if err != nil || !bytes.Equal(got, macA) {
+			return probe.Fail("after %d further packets were decoded the receiver computes AT_MAC %x for the first packet, which carries %x (%v): the octets as received are gone", in.N, got, macA, err)
+		}
+		for j, p := range keep {
+			w, mac := mk(byte((j + 1) * 64))
+			_ = w
+			got, err := p.CalcEapAkaPrimeAtMAC(key)
+			if err != nil || !bytes.Equal(got, mac) {
+				return probe.Fail("after %d packets were decoded the receiver computes AT_MAC %x for packet number %d, which carries %x (%v)", in.N, got, (j+1)*64, mac, err)
+			}
+		}
 	case "container-decode":
 		// a chain with an unsupported payload in the middle, through the container and through DecodeDecrypt without keys
 		m := model.Message{Header: model.Header{ISPI: 1, RSPI: 2, Major: 2, Exchange: 37, Flags: 8, MsgID: 5}, Payloads: []model.Payload{
